@@ -14,6 +14,7 @@ import (
 	"math/rand"
 	"runtime"
 	"sync"
+	"sync/atomic"
 
 	"github.com/RoaringBitmap/roaring/v2"
 )
@@ -861,6 +862,51 @@ func (e *Exec) doSerial(c *Call, ev *Event, targets *[]int) bool {
 				}(i, round)
 			}
 			wg.Wait() // (rounds one after the other: outs[i] / errs[i] are written by one goroutine at a time)
+		}
+		// burst: many goroutines hammer the zero-copy entry points (one shared pool of byte-buffer readers) on private copies
+		// of independent streams; every decode must equal the sequential reference of its own stream
+		{
+			refs := make([]*roaring.Bitmap, n)
+			for i := range refs {
+				refs[i] = roaring.New()
+				if _, err := refs[i].ReadFrom(bytes.NewReader(datas[i])); err != nil {
+					refs[i] = nil
+				}
+			}
+			var bad int32
+			var bw sync.WaitGroup
+			for g := 0; g < 8; g++ {
+				bw.Add(1)
+				go func(g int) {
+					defer bw.Done()
+					defer func() {
+						if r := recover(); r != nil {
+							atomic.AddInt32(&bad, 1)
+						}
+					}()
+					for it := 0; it < 40; it++ {
+						i := (g + it) % n
+						if refs[i] == nil {
+							continue
+						}
+						nb := roaring.New()
+						buf := append([]byte(nil), datas[i]...)
+						var err error
+						if (g+it)%2 == 0 {
+							_, err = nb.FromBuffer(buf)
+						} else {
+							_, err = nb.FromUnsafeBytes(buf)
+						}
+						if err != nil || !nb.Equals(refs[i]) {
+							atomic.AddInt32(&bad, 1)
+						}
+					}
+				}(g)
+			}
+			bw.Wait()
+			if bad > 0 {
+				errs[0] = true
+			}
 		}
 		*targets = append([]int{}, c.Xs...)
 		for i := 0; i < n; i++ {
